@@ -11,8 +11,7 @@ RULE = ('single applications of every step operator on canonical angles/geonums 
         'non-trivial = owned op result differs from its operands')
 TRUSTED = TRUSTED_COMMON
 ASSUMPTIONS = ASSUME_COMMON
-S3_LEGS = ['copy_blade (goes through Angle::new fast path with an i64 difference): predicate copy_blade_enc + correspondence',
-           'grade_angle in [0, 2pi): predicate grade_angle_val', 'histories mixing additions/subtractions: exact rational reference (predicate history_total); the theorem C07_history covers arbitrary sequences of step operators']
+S3_LEGS = ['copy_blade: theorem C07_copy_blade (exact blade when not smaller, else 3..6 above and congruent mod 4; blades < 2^50); predicate copy_blade_enc re-decides every generated case', 'grade_angle in [0, 2pi): theorem C07_grade_angle_range, predicate grade_angle_val per case', 'histories mixing additions/subtractions: exact rational reference (predicate history_total); the theorem C07_history covers arbitrary sequences of step operators']
 
 ASTEP = [('ADual', 2), ('AUndual', 2), ('ANeg', 2), ('AConj', 2)]
 GSTEP = [('GDual', 2), ('GUndual', 2), ('GNeg', 2), ('GDiff', 1), ('GIncr', 1), ('GInt', 3), ('GDecr', 3)]
